@@ -176,6 +176,13 @@ Definition unit_token (u : option string) : string :=
 
 Definition sidecar_of (m : mesh) : sidecar := map (fun sr => (fst sr, (pmin (snd sr), pmax (snd sr)))) (subs m).
 
+(* the side-car on disk after a save: with save_subregions the writer (over)writes it when the field
+   has subregions OR a side-car already exists at that name (then possibly with the empty table);
+   otherwise the disk is left as it was *)
+Definition sidecar_after (before : option sidecar) (save_sub : bool) (sc : sidecar) : option sidecar :=
+  if save_sub && (negb (length sc =? 0)%nat || match before with Some _ => true | None => false end)
+  then Some sc else before.
+
 Definition dims3 (m : mesh) : option (nat * nat * nat) :=
   match n m with
   | [a; b; c] => Some (Z.to_nat a, Z.to_nat b, Z.to_nat c)
